@@ -19,12 +19,12 @@ cargo test --offline -p inkayaku_core -p inkayaku_board -p inkayaku_uci -p inkay
 base=${PIPESTATUS[0]}
 echo "baseline exit=$base"
 echo "--- (2) demonstration WITH the change (must fail)"
-cp SEED/demo.rs $demo
+mkdir -p $cdir/tests; cp SEED/demo.rs $demo
 cargo test --offline -p $pkg --test seed_${lc}_demo 2>&1 | grep -E "^test |^test result|error(\[|:)" | head -30
 with=${PIPESTATUS[0]}
 echo "demo with change exit=$with"
 echo "--- (3) demonstration WITHOUT the change (must pass)"
-rm -f $demo; git apply -R SEED/patch.diff; cp SEED/demo.rs $demo
+rm -f $demo; git apply -R SEED/patch.diff; mkdir -p $cdir/tests; cp SEED/demo.rs $demo
 cargo test --offline -p $pkg --test seed_${lc}_demo 2>&1 | grep -E "^test result|error(\[|:)" | head -10
 without=${PIPESTATUS[0]}
 echo "demo without change exit=$without"
